@@ -247,7 +247,7 @@ func (fr *Frame) inline(st *State, pc Term, callee *ssa.Function, args []Val, bi
 	sub.env = fr.env
 	if e.pure == 0 {
 		for _, li := range sub.loops {
-			if li.Spec == nil && !strings.HasPrefix(li.Head.Comment, "rangeindex") {
+			if li.Spec == nil && !strings.HasPrefix(li.Head.Comment, "rangeindex") && !isCounterLoop(li) {
 				return Val{}, false
 			}
 		}
@@ -813,4 +813,37 @@ func containsStr(l []string, x string) bool {
 		}
 	}
 	return false
+}
+
+// isCounterLoop: the syntactic shape `for i := ...; i < B; i++` that detectCounter gives an automatic
+// invariant to (checked again, precisely, when the loop head is executed).
+func isCounterLoop(li *LoopInfo) bool {
+	h := li.Head
+	if len(h.Instrs) == 0 {
+		return false
+	}
+	ifi, ok := h.Instrs[len(h.Instrs)-1].(*ssa.If)
+	if !ok {
+		return false
+	}
+	cmp, ok := ifi.Cond.(*ssa.BinOp)
+	if !ok || cmp.Op != token.LSS {
+		return false
+	}
+	phi, ok := cmp.X.(*ssa.Phi)
+	if !ok || phi.Block() != h || len(phi.Edges) != 2 {
+		return false
+	}
+	for i, pred := range h.Preds {
+		if pred == h || li.Body[pred] {
+			add, ok := phi.Edges[i].(*ssa.BinOp)
+			if !ok || add.Op != token.ADD || add.X != ssa.Value(phi) {
+				return false
+			}
+			if c, ok := add.Y.(*ssa.Const); !ok || c.Value == nil || c.Int64() != 1 {
+				return false
+			}
+		}
+	}
+	return true
 }
